@@ -35,7 +35,7 @@ class FifoSpec(Spec):
                         for v in (vals if we else [0]):
                             acts.append((we, wcm, wd, re, rcm, rd, v))
         self._acts = acts
-        self.time_budget = 50 if tier == "quick" else 900
+        self.time_budget = 600 if tier == "quick" else 1500   # safety net only
 
     def build(self):
         from luna.gateware.memory import TransactionalizedFIFO
